@@ -519,7 +519,38 @@ Fixpoint lnames (e : expr) : list string :=
   | _ => []
   end.
 
-Definition inlining_quirk (body : expr) : bool := existsb (fun x => mem x (lnames body)) (ctargets body).
+(** names read directly in a function scope (not inside nested lambda bodies) outside the
+    comprehension that binds them *)
+Fixpoint fnames (bound : list string) (e : expr) : list string :=
+  match e with
+  | XName x => if mem x bound then [] else [x]
+  | XBin _ a b => fnames bound a ++ fnames bound b
+  | XList es => flat_map (fnames bound) es
+  | XLam _ _ args => flat_map (fnames bound) args
+  | XComp elt cl =>
+      let inner := (map fst cl ++ bound)%list in
+      match cl with
+      | [] => []
+      | (_, it1) :: rest =>
+          fnames bound it1 ++ flat_map (fun c => match c with (_, it) => fnames inner it end) rest
+      end ++ fnames inner elt
+  | XWalrus _ e1 => fnames bound e1
+  | XCall f args => fnames bound f ++ flat_map (fnames bound) args
+  | XAttr e1 _ => fnames bound e1
+  | XAppend l x => fnames bound l ++ fnames bound x
+  | _ => []
+  end.
+
+(** PEP 709 quirks of CPython 3.12.1, outside the model: in a function body, the iteration variable
+    of an inlined comprehension becomes a local (or cell) of the whole function, so
+    (a) a nested lambda outside the comprehension that reads the name finds an unbound cell
+        (NameError: cannot access free variable), and
+    (b) a read of the name elsewhere in the function body — unless it is a parameter or a [:=]
+        target, i.e. a genuine local — no longer reaches the globals (UnboundLocalError). *)
+Definition inlining_quirk (ps : list string) (body : expr) : bool :=
+  existsb (fun x => mem x (lnames body)
+                    || (mem x (fnames [] body) && negb (mem x ps) && negb (mem x (wtargets body))))
+          (ctargets body).
 
 Fixpoint nodup_str (l : list string) : bool :=
   match l with [] => true | x :: r => negb (mem x r) && nodup_str r end.
@@ -535,7 +566,7 @@ Fixpoint wf_expr (iters : list string) (in_iter in_cls : bool) (e : expr) : bool
   | XBin _ a b => wf_expr iters in_iter in_cls a && wf_expr iters in_iter in_cls b
   | XList es => forallb (wf_expr iters in_iter in_cls) es
   | XLam ps body args =>
-      nodup_str ps && negb (mem "__builtins__" ps) && negb (inlining_quirk body)
+      nodup_str ps && negb (mem "__builtins__" ps) && negb (inlining_quirk ps body)
       && forallb (wf_expr iters in_iter in_cls) args && wf_expr [] in_iter false body
   | XComp elt cl =>
       let its := (map fst cl ++ iters)%list in
@@ -917,7 +948,7 @@ Definition wf_stmt (st : stmt) : bool :=
   | SImportAs _ a => negb (String.eqb a "__builtins__")
   | SFrom _ _ a => negb (String.eqb a "__builtins__")
   | SDef f ps body => negb (String.eqb f "__builtins__") && nodup_str ps && negb (mem "__builtins__" ps)
-                      && negb (inlining_quirk body)
+                      && negb (inlining_quirk ps body)
                       && wf_expr [] false false body
   | SClass c attrs => negb (String.eqb c "__builtins__")
                       && forallb (fun ae => match ae with (_, e) => wf_expr [] false true e end) attrs
